@@ -61,6 +61,10 @@ def build(cfg, values=None):
             return 2 * xs0[K(k)] / p.a - 1, 2 * ys0[K(k)] / p.b - 1
         if variant == 'uvw':
             u, v, w, phix, phiy = p.uvw(c, xs=xs, ys=ys)
+            if cfg.get('kept_across_a_second_call'):
+                # the field of ANOTHER amplitude vector is recovered on the same points afterwards: the arrays returned for the first
+                # vector are the caller's and must still hold the first vector's field
+                p.uvw(np.array([2 * ck + 1 for ck in c0], dtype=object), xs=xs, ys=ys)
             for nm, arr in (('u', u), ('v', v), ('w', w), ('phix', phix), ('phiy', phiy)):
                 if arr.shape != shape:
                     obs.append(('%s-shape' % nm, Sym.lift(arr.size), Sym.lift(-1)))
@@ -248,6 +252,7 @@ def configs(tier, seed):
                     continue
                 out.append({'model': model, 'm': 2, 'n': 1, 'variant': 'uvw', 'P': P, 'cores': cores, 'group': 'uvw-chunking:%s' % model})
         out.append({'model': model, 'm': 3, 'n': 2, 'variant': 'uvw', 'P': 2, 'cores': None, 'group': 'uvw-default-cores:%s' % model})
+        out.append({'model': model, 'm': 2, 'n': 2, 'variant': 'uvw', 'P': 2, 'cores': 1, 'kept_across_a_second_call': True, 'group': 'uvw-result-kept-across-a-second-call:%s' % model})
         out.append({'model': model, 'm': 2, 'n': 2, 'variant': 'uvw', 'P': 6, 'cores': 2, 'layout': 'transposed-2d', 'group': 'uvw-noncontiguous-2d-points:%s' % model})
         out.append({'model': model, 'm': 4, 'n': 1, 'variant': 'uvw', 'P': 1, 'cores': 1, 'group': 'uvw-order-4-5:%s' % model})
         out.append({'model': model, 'm': 1, 'n': 5, 'variant': 'uvw', 'P': 1, 'cores': 2, 'group': 'uvw-order-4-5:%s' % model})
